@@ -153,14 +153,14 @@ func setStr(m map[string]bool) string {
 func checkC23(p *Prog, r *Result, tier string) {
 	r.Technique = "sibling agreement between the two store.Store implementations: equality of the key-layout constants (constant evaluation), agreement of failure classes per interface method (which error sentinels, mapped to classes by a frozen table, each implementation and its same-backend callees can produce), and an atomicity rule for multi-key conditional creates (one conditional transaction with an inspected result vs. a pipeline of independent SETNX)"
 	r.Explanation = "KC every key-layout constant has the same name and value in both backends; FC for every method of store.Store the failure classes {not-found, exists, has-children, invalid-argument} that the etcd implementation can produce are exactly those the redis implementation can produce (sentinels used in value position, followed through same-backend callees; a class on one side only means some operation fails in one backend and succeeds in the other); " +
-		"CW in every store function that creates conditionally, no plain write (put/set/delete/update) lies on a path to the conditional create — a refused create has then changed nothing; DC both backends decrease the in-progress counter by exactly one (etcd: Itoa(Atoi(value read) − 1), redis: one DECR); DL where the etcd implementation turns 'nothing was deleted' into not-found, the redis implementation inspects DEL's count as well; AT a create of several keys is one conditional operation whose outcome is inspected — etcd: a single transaction comparing Version(key) == 0 for every key; redis: must not be a pipeline that issues an independent SETNX per key (the keys that were absent are written although the call reports failure), and the per-key results must be looked at."
+		"CW in every store function that creates conditionally, no plain write (put/set/delete/update) lies on a path to the conditional create — a refused create has then changed nothing; DC both backends decrease the in-progress counter by exactly one (etcd: Itoa(Atoi(value read) − 1), redis: one DECR); DL where the etcd implementation turns 'nothing was deleted' into not-found, the redis implementation inspects DEL's count as well; AT a create of several keys is one conditional operation whose outcome is inspected — etcd: a single transaction comparing Version(key) == 0 for every key; redis: must not be a pipeline that issues an independent SETNX per key (the keys that were absent are written although the call reports failure), and the per-key results must be looked at; a multi-key UPDATE tests all keys with one EXISTS before it writes and never uses a conditional command per key."
 	r.NotCovered = "equality of the stored metadata after arbitrary sequences; ordering and limits of list results; error classes produced by the servers themselves"
 	r.Assumptions = []string{"the failure-class table (printed under tables) maps each sentinel to the class a caller can observe"}
 	r.Tables["failure_classes"] = c23Class
 	r.Tables["waived_differences"] = c23Waive
 	r.min("KC", 12)
 	r.min("FC", 30)
-	r.min("AT", 3)
+	r.min("AT", 4)
 
 	ek, rk := p.ByPath["store/etcdv3"], p.ByPath["store/redis"]
 	if ek == nil || rk == nil {
@@ -469,6 +469,77 @@ func checkC23(p *Prog, r *Result, tier string) {
 			r.bad("AT", key, p.pos(condCall), "the reply of the conditional command ("+how+") is not turned into an error: a create that was refused reports success")
 		default:
 			r.ok("AT", key, p.pos(condCall), how+"; its reply decides between nil and an error")
+		}
+	}
+
+	// ---- AT (update): a multi-key update is all-or-nothing too: the keys are tested together before anything is written
+	// (one EXISTS over all keys whose count is compared with the number of keys, dominating the writes), never by a
+	// conditional command per key — SET XX per key overwrites the keys that exist although the update reports failure
+	if BU := p.Fn("store/redis.(*Rediaron).BatchUpdate"); BU == nil {
+		r.undecided("AT", "store/redis BatchUpdate", "", "not found")
+	} else {
+		key := "store/redis BatchUpdate / a multi-key update writes nothing unless every key exists"
+		perKey := ""
+		var firstWrite ast.Node
+		scan := func(fn *FuncNode) {
+			fn.inspectBody(func(n ast.Node) bool {
+				c, ok := n.(*ast.CallExpr)
+				if !ok || fn.Callee(c) == nil {
+					return true
+				}
+				switch fn.Callee(c).Name() {
+				case "SetXX", "SetNX":
+					perKey = fn.Callee(c).Name() + " at " + p.pos(c)
+				case "Set", "MSet", "TxPipelined":
+					if fn == BU && firstWrite == nil {
+						firstWrite = c
+					}
+				}
+				return true
+			})
+		}
+		scan(BU)
+		for _, l := range BU.Lits {
+			scan(l)
+		}
+		var guard *ast.IfStmt
+		if firstWrite != nil {
+			guard, _ = guardedBy(BU, firstWrite, func(fn *FuncNode, is *ast.IfStmt) bool {
+				// int(e) != len(keys) where e comes from Exists(...)
+				be, ok := unparen(is.Cond).(*ast.BinaryExpr)
+				if !ok || be.Op != token.NEQ {
+					return false
+				}
+				hasLen := strings.Contains(exprStr(be.Y), "len(") || strings.Contains(exprStr(be.X), "len(")
+				fromExists := false
+				ast.Inspect(be, func(x ast.Node) bool {
+					if id, ok := x.(*ast.Ident); ok && fn.objOf(id) != nil {
+						o := fn.objOf(id)
+						fn.inspectBody(func(y ast.Node) bool {
+							if as, ok := y.(*ast.AssignStmt); ok && len(as.Rhs) == 1 && strings.Contains(exprStr(as.Rhs[0]), ".Exists(") {
+								for _, l := range as.Lhs {
+									if fn.objOf(l) == o {
+										fromExists = true
+									}
+								}
+							}
+							return true
+						})
+					}
+					return true
+				})
+				return hasLen && fromExists
+			})
+		}
+		switch {
+		case perKey != "":
+			r.bad("AT", key, p.pos(BU.Decl), "the update issues a conditional command per key ("+perKey+"): when only some of the keys exist those are overwritten and the call reports failure — etcd's transaction (Version != 0 for every key) writes nothing in that case")
+		case firstWrite == nil:
+			r.undecided("AT", key, p.pos(BU.Decl), "no write found")
+		case guard == nil:
+			r.bad("AT", key, p.pos(firstWrite), "no `Exists(all keys) != len(keys) → error` dominates the writes: an update of a partly missing key set writes the keys that exist")
+		default:
+			r.ok("AT", key, p.pos(guard), "`"+exprStr(guard.Cond)+"` over one EXISTS of all keys dominates the writes")
 		}
 	}
 
